@@ -200,7 +200,9 @@ type Walk struct {
 	TargetEdge func(from *ssa.BasicBlock, succ int) bool
 	// TargetEnv is like Target but also sees the boolean facts known on the path.
 	TargetEnv func(ssa.Instruction, Env) bool
-	NoEnv     bool
+	// TargetPath is like Target but also sees the blocks walked so far (to resolve Phi values, see ResolveOnPath).
+	TargetPath func(ssa.Instruction, []int) bool
+	NoEnv      bool
 }
 
 // EvalBool evaluates a boolean SSA value under path facts.
@@ -243,6 +245,9 @@ func (w *Walk) From(start Point, env Env) *Found {
 				return &Found{ins, it.path}
 			}
 			if w.TargetEnv != nil && w.TargetEnv(ins, it.st.env) {
+				return &Found{ins, it.path}
+			}
+			if w.TargetPath != nil && w.TargetPath(ins, it.path) {
 				return &Found{ins, it.path}
 			}
 			if w.Stop != nil && w.Stop(ins) {
@@ -414,7 +419,27 @@ func enterBlock(from, to *ssa.BasicBlock, env Env) Env {
 		if !ok {
 			break
 		}
-		if !isBool(phi.Type()) || predIdx < 0 {
+		if predIdx < 0 {
+			continue
+		}
+		if !isBool(phi.Type()) {
+			// nil-ness of a pointer / interface phi follows the operand of the edge taken (this is what keeps
+			// `r = err; …; if r != nil` correlated after a helper was expanded in place)
+			if isNillable(phi.Type()) {
+				e := phi.Edges[predIdx]
+				switch {
+				case isNilConstValue(e):
+					asgs = append(asgs, asg{phi, true, true})
+				case certainlyNonNil(e):
+					asgs = append(asgs, asg{phi, false, true})
+				default:
+					if b, ok := env[canonOperand(e)]; ok {
+						asgs = append(asgs, asg{phi, b, true})
+					} else if b, ok := env[e]; ok {
+						asgs = append(asgs, asg{phi, b, true})
+					}
+				}
+			}
 			continue
 		}
 		val, known := evalBool(phi.Edges[predIdx], env)
@@ -449,6 +474,29 @@ func enterBlock(from, to *ssa.BasicBlock, env Env) Env {
 		}
 	}
 	return n
+}
+
+func isNilConstValue(v ssa.Value) bool {
+	c, ok := v.(*ssa.Const)
+	return ok && c.Value == nil && isNillable(c.Type())
+}
+
+// certainlyNonNil: values that cannot be nil: a boxed value, an allocation, a fresh error, an error sentinel.
+func certainlyNonNil(v ssa.Value) bool {
+	switch x := v.(type) {
+	case *ssa.MakeInterface, *ssa.Alloc, *ssa.MakeSlice, *ssa.MakeMap, *ssa.MakeChan, *ssa.MakeClosure, *ssa.Function:
+		return true
+	case *ssa.Call:
+		switch CallName(x) {
+		case "fmt.Errorf", "errors.New":
+			return true
+		}
+	case *ssa.UnOp:
+		if g, ok := x.X.(*ssa.Global); ok && x.Op == token.MUL && strings.HasPrefix(g.Name(), "Err") {
+			return true
+		}
+	}
+	return false
 }
 
 func isBool(t types.Type) bool {
@@ -994,4 +1042,57 @@ func IsValue(v ssa.Value) func(ssa.Value) bool {
 			}
 		}
 	}
+}
+
+// ResolveOnPath replaces a Phi by the operand of the edge through which the given path (block indices, oldest first)
+// last entered the Phi's block; repeated for nested Phis. A Phi whose block was entered before the path starts stays.
+func ResolveOnPath(v ssa.Value, path []int) ssa.Value {
+	for d := 0; d < 16; d++ {
+		// a defer-spilled result: `*ret = x; rundefers; return *ret`
+		if u, isLoad := v.(*ssa.UnOp); isLoad && u.Op == token.MUL {
+			if a, isAlloc := u.X.(*ssa.Alloc); isAlloc {
+				if vals, entry := ReachingStores(u, a); len(vals) == 1 && !entry {
+					v = vals[0]
+					continue
+				}
+			}
+			return v
+		}
+		phi, ok := v.(*ssa.Phi)
+		if !ok {
+			return v
+		}
+		bi := phi.Block().Index
+		k := -1
+		for i := len(path) - 1; i > 0; i-- {
+			if path[i] == bi {
+				k = i
+				break
+			}
+		}
+		if k <= 0 {
+			return v
+		}
+		pred := path[k-1]
+		next := ssa.Value(nil)
+		for i, p := range phi.Block().Preds {
+			if p.Index == pred {
+				next = phi.Edges[i]
+			}
+		}
+		if next == nil {
+			return v
+		}
+		v = next
+		path = path[:k]
+	}
+	return v
+}
+
+// AfterEdge: the point reached by taking the edge, and the facts the branch condition establishes on it.
+func AfterEdge(e IfEdge) (Point, Env) {
+	env := Env{}
+	refine(e.If.Cond, e.Succ == 0, env)
+	to := e.B.Succs[e.Succ]
+	return Point{B: to, I: 0}, enterBlock(e.B, to, env)
 }
